@@ -25,7 +25,7 @@ ASSUMPTIONS = ['vf.refs.des_ref is a correct FIPS 46-3 implementation (self-test
                'the stop-point map of DESIGN.md 5/C06 is the documented meaning of scared.des.Steps']
 
 KEYFORMS = [8, 16, 24, 128, 256, 384]
-DTYPES = ['uint8', 'int16', 'int32', 'int64', 'uint16', 'uint64', 'uint32']
+DTYPES = ['uint8', 'int16', 'int32', 'int64', 'uint16', 'uint64', 'uint32', '>u2', '>i4']       # incl. non-native byte order
 SHAPES = ['one_one', 'many_one', 'one_many', 'paired']
 
 
@@ -64,6 +64,7 @@ def cases(tier, seed):
                 k += 1
     for j in range(6 if tier == 'quick' else 150):
         out.append(dict(gen='history', calls=30, sub=core.subseed('C06h', seed, j), must=j < 3))
+    out.append(dict(gen='threads', sub=core.subseed('C06t', seed), must=True))
     n_rand = 30 if tier == 'quick' else 3000
     rs = np.random.default_rng(core.subseed('C06r', seed))
     for j in range(n_rand):
@@ -124,6 +125,8 @@ def run_case(case):
         return _primitives(t, case)
     if case['gen'] == 'history':
         return _history(t, case)
+    if case['gen'] == 'threads':
+        return _threads(t, case)
     rng = np.random.default_rng(case['sub'])
     blocks, keys = _build(case, rng)
     dt = np.dtype(case['dtype'])
@@ -193,6 +196,61 @@ def run_case(case):
     t.check((arr_b.tobytes(), arr_k.tobytes()) == snap, 'input_modified', lambda: dict(case=case))
     sig = '|'.join(str(case.get(k)) for k in ('kf', 'dir', 'shape', 'dtype', 'struct', 'n', 'sub'))
     return t.result(sig=sig, sample=dict(case=case, stop_points=npass * 160, blocks=n, comparisons=t.checks))
+
+
+def _threads(t, case):
+    """Two threads call the cipher at the same time with different inputs (per-call state must not be shared between calls)."""
+    import sys
+    import threading
+    import scared
+    rng = np.random.default_rng(case['sub'])
+    jobs = []
+    for j in range(2):
+        for c in range(20):
+            kf = int(rng.choice([8, 16, 24]))
+            n = int(rng.choice([1, 2, 300]))
+            key = rng.integers(0, 256, kf).astype('uint8')
+            blk = rng.integers(0, 256, (n, 8)).astype('uint8') if n > 1 else rng.integers(0, 256, 8).astype('uint8')
+            mode = ['encrypt', 'decrypt'][int(rng.integers(2))]
+            npass = 1 if kf == 8 else 3
+            jobs.append((j, mode, key, blk, int(rng.integers(npass)), int(rng.integers(16)), int(rng.integers(10))))
+    results, errors = {}, []
+
+    def work(j):
+        for idx, (jj, mode, key, blk, p, rnd, step) in enumerate(jobs):
+            if jj != j:
+                continue
+            try:
+                results[idx] = getattr(scared.des, mode)(blk, key, at_des=p, at_round=rnd, after_step=step)
+            except Exception as e:
+                errors.append((idx, repr(e)[:200]))
+    old = sys.getswitchinterval()
+    sys.setswitchinterval(1e-5)
+    try:
+        ths = [threading.Thread(target=work, args=(j,)) for j in range(2)]
+        for th in ths:
+            th.start()
+        for th in ths:
+            th.join()
+    finally:
+        sys.setswitchinterval(old)
+    t.check(not errors, 'concurrent_call_failed', lambda: dict(errors=errors[:3]))
+    for idx, (jj, mode, key, blk, p, rnd, step) in enumerate(jobs):
+        if idx not in results:
+            continue
+        rows = blk.reshape(-1, 8)[:2]
+        exp = []
+        for row in rows:
+            tr = D.tdes_trace(row.tolist(), key.tolist(), mode)
+            exp.append(D.stop_value(tr[p][0], tr[p][1], tr[p][2], rnd, step))
+        got = np.asarray(results[idx])
+        got = got.reshape(-1, got.shape[-1])[:2]
+        t.count('concurrent_calls')
+        t.count('stop_points')
+        t.check(np.array_equal(got, np.array(exp, dtype='uint8')), 'result_depends_on_a_concurrent_call', lambda: dict(job=idx, thread=jj, mode=mode, at_des=p, at_round=rnd, after_step=step))
+    for c in ('roundtrips', 'inputs_unchanged', 'templates_checked', 'primitive_values', 'blocks', 'history_calls'):
+        t.count(c, 0)
+    return t.result(sig='threads', sample=dict(case=case, calls=len(jobs)))
 
 
 def _history(t, case):
